@@ -23,6 +23,10 @@ pub struct MsgPlan {
     pub tweaks: Vec<u32>,
     pub len: usize,
     pub pad_start: usize,
+    /// every construction step reported success, yet the value does not validate in the buffer
+    /// it was built in; it is sent all the same (delivery worlds only) and the ordinary oracles
+    /// judge what the receiver makes of it
+    pub unvalidated: bool,
 }
 
 #[derive(Clone, Debug, serde::Serialize)]
@@ -68,7 +72,11 @@ pub fn tweak_top<M: ZooMsg + ?Sized>(m: &mut M, g: &mut Gen) {
         let other = M::gen(&mut Gen::new(g.d, g.st, scale));
         // a failed assignment may leave an invalid value behind on the pinned tree (the tag is
         // written before the size check): no further operation on it
-        if m.assign_in_place(emp::<M>(&other)).is_err() || g.chance(1, 2) {
+        if m.assign_in_place(emp::<M>(&other)).is_err() {
+            crate::zoo::note_refused();
+            return;
+        }
+        if g.chance(1, 2) {
             return;
         }
     }
@@ -94,6 +102,33 @@ pub fn build_in<M: ZooMsg + ?Sized>(buf: &mut [u8], mp: &MsgPlan) -> Result<(usi
     let size = m.size();
     let val = m.read();
     Ok((size, size <= buf.len(), val))
+}
+
+/// The same construction as `build_in` for a value that does *not* validate afterwards: its
+/// `size()` and deep read through the unchecked mapping (what `SendGuard` does).  None when the
+/// value validates.  Call under `guarded`.
+pub fn build_unvalidated<M: ZooMsg + ?Sized>(buf: &mut [u8], mp: &MsgPlan) -> Result<Option<(usize, Val)>, flatty::Error> {
+    {
+        let m: &mut M = if mp.use_default { M::default_in_place(buf)? } else { M::new_in_place(buf, emp::<M>(&mp.val))? };
+        if !mp.tweaks.is_empty() {
+            let mut d = Decider::from_tape(Tape { msgs: mp.tweaks.clone(), ..Default::default() });
+            tweak_top::<M>(m, &mut Gen::new(&mut d, St::Msgs, 3));
+        }
+    }
+    if M::validate(buf).is_ok() {
+        return Ok(None);
+    }
+    let m = unsafe { M::from_bytes_unchecked(buf) };
+    let size = m.size();
+    if size > buf.len() || size < M::MIN_SIZE {
+        return Ok(None);
+    }
+    let _ = crate::zoo::take_invalid();
+    let val = m.read();
+    if crate::zoo::take_invalid().is_some() {
+        return Ok(None);
+    }
+    Ok(Some((size, val)))
 }
 
 /// Empirical trailing padding: bytes of the frame never written by the library (emplace the
@@ -195,7 +230,7 @@ pub fn make_plan_opt<M: ZooMsg + ?Sized>(d: &mut Decider, stats: &mut Stats, nsp
         // fit: largest clamp that emplaces and whose size() <= max_send
         let mut chosen: Option<(MsgPlan, usize)> = None;
         if use_default {
-            let mp = MsgPlan { val: Val::I(0), use_default: true, manual_init: false, expect_val: Val::I(0), tweaks: vec![], len: 0, pad_start: 0 };
+            let mp = MsgPlan { val: Val::I(0), use_default: true, manual_init: false, expect_val: Val::I(0), tweaks: vec![], len: 0, pad_start: 0, unvalidated: false };
             if let Ok(Ok((size, true, v))) = guarded(|| build_in::<M>(&mut scratch_store[..cap], &mp)) {
                 if size <= max_send {
                     // the documented default state, where the adapter states it
@@ -209,7 +244,7 @@ pub fn make_plan_opt<M: ZooMsg + ?Sized>(d: &mut Decider, stats: &mut Stats, nsp
             let mut n = top;
             loop {
                 let v = if n == top { val.clone() } else { val.clamp(n) };
-                let mp = MsgPlan { val: v, use_default: false, manual_init: false, expect_val: Val::I(0), tweaks: vec![], len: 0, pad_start: 0 };
+                let mp = MsgPlan { val: v, use_default: false, manual_init: false, expect_val: Val::I(0), tweaks: vec![], len: 0, pad_start: 0, unvalidated: false };
                 match guarded(|| build_in::<M>(&mut scratch_store[..cap], &mp)) {
                     Ok(Ok((size, true, back))) if size <= max_send => {
                         if n < top {
@@ -227,6 +262,17 @@ pub fn make_plan_opt<M: ZooMsg + ?Sized>(d: &mut Decider, stats: &mut Stats, nsp
                         if anomalies.len() < 4 {
                             anomalies.push((mp.val.clone(), size));
                         }
+                        // the emplacer reported success and the value does not validate: an
+                        // application would send it – so does the sender party
+                        scratch_store[..cap].fill(0xA5);
+                        if let Ok(Ok(Some((usize_, _back)))) = guarded(|| build_unvalidated::<M>(&mut scratch_store[..cap], &mp)) {
+                            if usize_ <= max_send && !canary_hit!() {
+                                stats[P::unvalidated_value_sent as usize] += 1;
+                                let want = mp.val.clone();
+                                chosen = Some((MsgPlan { expect_val: want, unvalidated: true, ..mp }, usize_));
+                                break;
+                            }
+                        }
                     }
                     Err(Caught::Panic(..)) => stats[P::producer_panicked as usize] += 1,
                     _ => {}
@@ -242,7 +288,7 @@ pub fn make_plan_opt<M: ZooMsg + ?Sized>(d: &mut Decider, stats: &mut Stats, nsp
             Some(x) => x,
             None => {
                 // fall back to the default value (always fits by construction of max_send)
-                let mp = MsgPlan { val: Val::I(0), use_default: true, manual_init: false, expect_val: Val::I(0), tweaks: vec![], len: 0, pad_start: 0 };
+                let mp = MsgPlan { val: Val::I(0), use_default: true, manual_init: false, expect_val: Val::I(0), tweaks: vec![], len: 0, pad_start: 0, unvalidated: false };
                 match guarded(|| build_in::<M>(&mut scratch_store[..cap], &mp)) {
                     Ok(Ok((size, true, v))) => {
                         let want = M::default_val().unwrap_or_else(|| v.clone());
@@ -253,8 +299,9 @@ pub fn make_plan_opt<M: ZooMsg + ?Sized>(d: &mut Decider, stats: &mut Stats, nsp
             }
         };
         // builder operations on the live value (probe-only when they break the value)
-        if d.chance(St::Msgs, tweak_p, 8) {
+        if !mp.unvalidated && d.chance(St::Msgs, tweak_p, 8) {
             let start = d.rec.msgs.len();
+            let _ = crate::zoo::take_refused();
             let r = guarded(|| -> Result<(usize, bool, Val), flatty::Error> {
                 scratch_store[..cap].fill(0x5A);
                 let scratch = &mut scratch_store[..cap];
@@ -289,10 +336,25 @@ pub fn make_plan_opt<M: ZooMsg + ?Sized>(d: &mut Decider, stats: &mut Stats, nsp
                         }
                     }
                 }
-                Ok(Ok((_, false, _))) => stats[P::producer_left_invalid_message as usize] += 1,
+                Ok(Ok((_, false, _))) => {
+                    stats[P::producer_left_invalid_message as usize] += 1;
+                    // invalid although no builder operation was refused: sent all the same
+                    if !crate::zoo::take_refused() && !tw.is_empty() {
+                        let mp2 = MsgPlan { tweaks: tw, ..mp.clone() };
+                        scratch_store[..cap].fill(0xA5);
+                        if let Ok(Ok(Some((s2, back2)))) = guarded(|| build_unvalidated::<M>(&mut scratch_store[..cap], &mp2)) {
+                            if s2 <= max_send && !canary_hit!() && !crate::zoo::take_refused() {
+                                stats[P::unvalidated_value_sent as usize] += 1;
+                                mp = MsgPlan { expect_val: back2, unvalidated: true, ..mp2 };
+                                size = s2;
+                            }
+                        }
+                    }
+                }
                 Err(Caught::Panic(..)) => stats[P::producer_panicked as usize] += 1,
                 _ => {}
             }
+            let _ = crate::zoo::take_refused();
         }
         mp.len = size;
         mp.manual_init = !mp.use_default && d.chance(St::Msgs, 1, 8);
